@@ -277,7 +277,7 @@ def check(ctx):
     if not ctx.thorough:
         units += [("hist", "str", "name", METHOD, 3, "fresh", p) for p in ("cell", "view", "replace", "cell2", "view2")]
     units += [("reduce", a, ctx.pick(4, 5)) for a in ("int", "float", "neg")] + [("reduce", a, 4) for a in ("big", "bigf")]
-    units += [("gextra", f) for f in ("grid", "floats")]
+    units += [("gextra", f) for f in ("grid", "floats", "patterns", "applies")]
     agg = hashseeds.run(ctx, "props.c12", units)
     agg.notes["bound"] = "rows<=4 (1 key) / <=3 (2 keys) quick; <=5 / <=4 / <=2 (3 keys) thorough"
     agg.notes["exhaustive"] = True
@@ -291,9 +291,11 @@ def coverage_goals(ctx, agg):
 def replay(rec):
     case = rec.get("case") or {}
     agg = Agg()
-    if case.get("family") in ("grid of composite keys", "float accumulation"):
+    _fam = {"grid of composite keys": "grid", "float accumulation": "floats", "every two-group arrangement": "patterns",
+            "several custom functions on one column": "applies", "one-shot iterable arguments": "applies"}
+    if case.get("family") in _fam:
         from mc import groupextra
-        fam = "grid" if case["family"].startswith("grid") else "floats"
+        fam = _fam[case["family"]]
         return set(groupextra.run_extra_unit(("gextra", fam), METHOD).viol)
     if "hist" in case:
         col, idx, new, path = case["hist"]
